@@ -2,7 +2,7 @@
 //! concurrent compilations on other threads, whatever ran earlier in the process.
 
 use crate::exec::*;
-use vcommon::pool::draw_item;
+use vcommon::pool::{draw_item, twin_with_other_format};
 use serde::{Deserialize, Serialize};
 use serde_json::{json, Value as Json};
 use std::cell::RefCell;
@@ -181,7 +181,15 @@ pub fn draw_plan(rng: &mut Rng, index: u64, tier: Tier) -> ExecPlan {
         } else {
             1 + rng.usize(5)
         };
-        tasks.push((0..h).map(|_| draw_item(rng)).collect());
+        tasks.push((0..h).map(|_| draw_item(rng)).collect::<Vec<Item>>());
+    }
+    // twins: some item also appears elsewhere in the plan under another output format
+    if rng.chance(1, 2) {
+        let (t, k) = (rng.usize(tasks.len()), 0);
+        let twin = twin_with_other_format(&tasks[t][k], rng);
+        let t2 = rng.usize(tasks.len());
+        let pos = rng.usize(tasks[t2].len() + 1);
+        tasks[t2].insert(pos, twin);
     }
     ExecPlan {
         sched: match rng.below(4) {
